@@ -118,7 +118,7 @@ structure Detail where
   level : Nat
   words : List Bytes
   valueOpts : List Bytes
-deriving Repr
+deriving Repr, DecidableEq
 
 /-- `subcommand_details`: one `case` arm per distinct bin path; `none` = the generator panics -/
 def details (root : GNode) : Option (List Detail) :=
